@@ -228,6 +228,11 @@ class Edits:
                 raise LostAnchor("overlapping edits in %s at %d..%d (%s vs %s)" % (self.path, a, b, tag, t))
         self.edits.append((a, b, repl, tag))
 
+    def drop_range(self, a, b, tag):
+        """Delete [a,b) entirely; edits that lie inside the range are discarded."""
+        self.edits = [e for e in self.edits if not (a <= e[0] and e[1] <= b)]
+        self.add(a, b, '', tag)
+
     def render(self, a, b):
         """Return list of (text, origin) pieces for range [a,b) with edits applied."""
         pieces = []
@@ -281,6 +286,12 @@ class Unit:
                 spec[key] = merged
             have_files = {f['path']: f for f in spec.get('file', [])}
             for f in sub.get('file', []):
+                if spec.get('include_assumed') and f.get('extra') and not f.get('_extra_assumed'):
+                    # exec fns written out in the included unit's `extra` text (e.g. the enum_dispatch expansion) were
+                    # verified there; here their bodies are skipped like every other included function
+                    f = dict(f)
+                    f['extra'] = re.sub(r'(?m)^(\s*)((?:pub )?fn )', r'\1#[verifier::external_body] \2', f['extra'])
+                    f['_extra_assumed'] = True
                 if f['path'] in have_files:
                     # same source file in both units: start from the included entry, the including unit overrides
                     tgt = have_files[f['path']]
@@ -662,11 +673,21 @@ class Unit:
         qual = "%s::%s" % (re.sub(r'\s+', ' ', item_key), name) if item_key else name
         qname = "%s :: %s" % (path, qual)
         fn_spans.append((sub['a'], sub['b'], qname))
+        # keep-list for an item: every other fn of that item is dropped
+        for d in f.get('fn_keep', []):
+            ik, fnn = d.rsplit('::', 1)
+            if re.search(ik, item_key):
+                allowed = [x.rsplit('::', 1)[1] for x in f.get('fn_keep', []) if re.search(x.rsplit('::', 1)[0], item_key)]
+                if name not in allowed:
+                    ed.drop_range(sub['a'], sub['b'], 'D1')
+                    self.rule('D1', path, line_of(text, sub['hdr_a']), 'dropped fn %s (not in fn_keep)' % qual)
+                    return
+                break
         # drop?
         for d in f.get('fn_drop', []):
             ik, fnn = d.rsplit('::', 1)
             if fnn == name and re.search(ik, item_key):
-                ed.add(sub['a'], sub['b'], '', 'D1')
+                ed.drop_range(sub['a'], sub['b'], 'D1')
                 self.rule('D1', path, line_of(text, sub['hdr_a']), 'dropped fn %s' % qual)
                 return
         forced = qname in getattr(self, 'force_external', set())
